@@ -376,3 +376,20 @@ Ltac t_NQ :=
   | |- NQ (set s_invs (fun l => l ++ [(_, new_inv _)]) _) => apply NQ_invs_new; assumption
   | |- _ => (eapply NQ_frame; [| |eassumption]); frame_eq
   end.
+
+(* ---- the executing-workers table of one invocation ------------------------------------------------------------------------------- *)
+Definition xcnt (l : list (wref * nat)) (w : wref) : nat := match aget wref_eqb w l with Some n => n | None => 0%nat end.
+Lemma xcnt_exec_incr : forall l w w', xcnt (exec_incr w l) w' = (xcnt l w' + (if wref_eqb w' w then 1 else 0))%nat.
+Proof.
+  intros l w w'. unfold xcnt, exec_incr. destruct (aget wref_eqb w l) as [n|] eqn:E.
+  - rewrite (aget_aset wref_eqb wref_eqb_eq). destruct (wref_eqb w' w) eqn:Ew; [|lia].
+    apply wref_eqb_eq in Ew. subst. rewrite E. lia.
+  - rewrite (aget_app wref_eqb). destruct (aget wref_eqb w' l) as [m|] eqn:E2.
+    + destruct (wref_eqb w' w) eqn:Ew; [|lia]. apply wref_eqb_eq in Ew. subst. congruence.
+    + cbn. destruct (wref_eqb w' w); lia.
+Qed.
+Lemma exec_incr_mono : forall w l w',
+  (match aget wref_eqb w' l with Some n => n | None => 0 end <= match aget wref_eqb w' (exec_incr w l) with Some n => n | None => 0 end)%nat.
+Proof. intros w l w'. change (xcnt l w' <= xcnt (exec_incr w l) w')%nat. rewrite xcnt_exec_incr. lia. Qed.
+Lemma ecount_xcnt : forall s a w, ecount s a w = xcnt (v_exec (get_inv s a)) w.
+Proof. reflexivity. Qed.
